@@ -12,6 +12,7 @@ import TzVerif.Proofs.Zoned
 import TzVerif.Proofs.SrcEqZone
 import TzVerif.Proofs.SrcEqFind
 import TzVerif.Proofs.SrcEqCmp
+import TzVerif.Proofs.SrcEqGetters
 import TzVerif.Generated.StableC14   -- per run: the current translation (SrcNow) equals the baseline (Src) these theorems are about
 
 namespace TzVerif.C14
@@ -138,5 +139,16 @@ theorem search_entries_src (y mo d h mi s ns : Int) (z : TimeZone) (rs : List Fo
   cases f with
   | normal x => exact h.1
   | skipped b a => exact ⟨h.1, h.2.1⟩
+
+/-- the getters of `DateTime` as the source has them (generated by `impl_datetime!()`, plus `local_time_type`) return
+the stored fields the invariant is about; `week_day` / `year_day` are the calendar functions of those fields -/
+theorem getters_src (d : DateTime) :
+    Src.DateTime.year d = d.year ∧ Src.DateTime.month d = d.month ∧ Src.DateTime.month_day d = d.monthDay ∧
+    Src.DateTime.hour d = d.hour ∧ Src.DateTime.minute d = d.minute ∧ Src.DateTime.second d = d.second ∧
+    Src.DateTime.nanoseconds d = d.nanoseconds ∧ Src.DateTime.local_time_type d = d.localTimeType ∧
+    Src.DateTime.unix_time d = d.unixTime ∧
+    Src.DateTime.week_day d = weekDay d.year d.month d.monthDay ∧
+    (1 ≤ d.month ∧ d.month ≤ 12 → 1 ≤ d.monthDay ∧ d.monthDay ≤ 255 → Src.DateTime.year_day d = yearDay d.year d.month d.monthDay) :=
+  ⟨rfl, rfl, rfl, rfl, rfl, rfl, rfl, rfl, rfl, Proofs.SrcEq.dt_week_day_eq d, fun hm hd => Proofs.SrcEq.dt_year_day_eq d hm hd⟩
 
 end TzVerif.C14
